@@ -4,8 +4,6 @@ import (
 	"errors"
 	"fmt"
 	"math"
-	"strconv"
-	"strings"
 
 	"github.com/shopspring/decimal"
 	"github.com/verily-src/fhirpath-go/fhirpath/internal/expr"
@@ -50,19 +48,19 @@ func Abs(ctx *expr.Context, input system.Collection, args ...expr.Expression) (s
 		res, _ := input[0].(system.Decimal)
 		return system.Collection{system.Decimal(decimal.Decimal(res).Abs())}, nil
 	case system.Quantity:
-		quantity := strings.Split(input[0].(system.Quantity).String(), " ")
-		// Input type conversion
-		f, err := strconv.ParseFloat(quantity[0], 64)
+		if _, err := input.ToSingleton(); err != nil {
+			return nil, err
+		}
+		// Exact, and the unit is kept as it is: compare with the zero of the same unit
+		quantity := input[0].(system.Quantity)
+		zero, err := quantity.Sub(quantity)
 		if err != nil {
 			return nil, err
 		}
-		// Absolution number
-		res := math.Abs(f)
-		unit := ""
-		if len(quantity) > 1 {
-			unit = strings.Join(quantity[1:], " ")
+		if negative, err := quantity.Less(zero); err == nil && bool(negative) {
+			return system.Collection{quantity.Negate()}, nil
 		}
-		return system.Collection{system.MustParseQuantity(fmt.Sprintf("%f", res), unit)}, nil
+		return system.Collection{quantity}, nil
 	}
 	return nil, errors.New("input is not a number")
 }
